@@ -68,7 +68,7 @@ func ruleC01Fmt(e *Env) {
 		sep  string
 	}{{"extended", 0, "-"}, {"basic", basic, ""}} {
 		var captured []pred.Val
-		ev := &pred.Evaluator{Prog: e.P.SSA, Oracle: noOracle{}, Summaries: map[string]pred.Summary{
+		ev := &pred.Evaluator{Prog: e.P.SSA, GlobalInit: e.globalTables(), Oracle: noOracle{}, Summaries: map[string]pred.Summary{
 			bp.String(): func(ev *pred.Evaluator, args []pred.Val) (pred.Val, error) {
 				captured = args
 				return pred.Sym{Name: "out"}, nil
@@ -179,7 +179,7 @@ func ruleC01Enc(e *Env) {
 			continue
 		}
 		site := flow.FnName(fn)
-		ev := &pred.Evaluator{Prog: e.P.SSA, Oracle: noOracle{}}
+		ev := &pred.Evaluator{Prog: e.P.SSA, GlobalInit: e.globalTables(), Oracle: noOracle{}}
 		out, err := ev.Eval(fn, []pred.Val{a.recv("d")})
 		if err != nil {
 			e.S.Unk(rule, site, name, err.Error(), e.Pos(fn))
@@ -209,7 +209,7 @@ func ruleC01Enc(e *Env) {
 	// Time() arguments and the stores (FromTime) are the other half of the encoding
 	ruleFromTime(e, rule, a)
 	if fn := e.Method(rule, "date", "Date", "Time"); fn != nil {
-		ev := &pred.Evaluator{Prog: e.P.SSA, Oracle: noOracle{}}
+		ev := &pred.Evaluator{Prog: e.P.SSA, GlobalInit: e.globalTables(), Oracle: noOracle{}}
 		out, err := ev.Eval(fn, []pred.Val{a.recv("d")})
 		switch {
 		case err != nil:
